@@ -261,3 +261,26 @@ def _round7(ctx):
     with ctx.rule('R01.13', 'frames handed to a channel reach the I/O thread and its poll set: blocking hand-off send; a channel opened after a back-pressure episode is polled (shared with C09, C18)', floor=4) as r:
         A.include(ctx, r, 'c09', 'R09.3', pick=('send',))
         A.include(ctx, r, 'c18', 'R18.2', pick=('flag',))
+    with ctx.rule('R01.14', 'a TLS transport is the same transport: the wrappers hand read / write / flush and the poll registration through unchanged', floor=0) as r:
+        import sym as S
+        TS, HS = 'stream::native_tls::TlsStream<S>', 'stream::native_tls::TlsHandshakeStream<S>'
+        INNER, HINNER = 'native_tls::TlsStream::get_ref(self.0)', 'stream::native_tls::InnerHandshake::get_ref(std::option::Option::unwrap(self.inner))'
+        want = {
+            '<%s as std::io::Read>::read' % TS: '<native_tls::TlsStream<S> as std::io::Read>::read(self.0, buf)',
+            '<%s as std::io::Write>::write' % TS: '<native_tls::TlsStream<S> as std::io::Write>::write(self.0, buf)',
+            '<%s as std::io::Write>::flush' % TS: '<native_tls::TlsStream<S> as std::io::Write>::flush(self.0)',
+        }
+        for w, inner in ((TS, INNER), (HS, HINNER)):
+            want['<%s as mio::event::Evented>::register' % w] = 'mio::event::Evented::register(%s, poll, token, interest, opts)' % inner
+            want['<%s as mio::event::Evented>::reregister' % w] = 'mio::event::Evented::reregister(%s, poll, token, interest, opts)' % inner
+            want['<%s as mio::event::Evented>::deregister' % w] = 'mio::event::Evented::deregister(%s, poll)' % inner
+        names = {'read': ['self', 'buf'], 'write': ['self', 'buf'], 'flush': ['self'], 'register': ['self', 'poll', 'token', 'interest', 'opts'],
+                 'reregister': ['self', 'poll', 'token', 'interest', 'opts'], 'deregister': ['self', 'poll']}
+        present = [p_ for p_ in want if ctx.has_fn(p_)]
+        for p_ in sorted(present):
+            prms = names[p_.rsplit('::', 1)[-1]]
+            rows = P.table(ctx, p_, prms)
+            r.check('forwards:%s' % p_.replace('stream::native_tls::', ''), len(rows) == 1 and not rows[0].conds and rows[0].value_str() == want[p_], ctx.site(p_), built=[x.row() for x in rows], expected=want[p_],
+                    why='interest, token, buffer and result pass through untouched: the loop above cannot tell a TLS transport from a plain one')
+        # with the native-tls feature the nine wrappers exist; without it there is no TLS transport at all
+        r.check('wrappers-present', len(present) in (0, 9), None, built=len(present), expected='all nine (feature native-tls) or none')
